@@ -12,6 +12,7 @@ import subprocess
 import sys
 
 from vlib.engine import CaseViolation, Inconclusive, repo_root
+from vlib.util import check
 from vlib.tagoracle import LibDriver, HOSTILE_INSTANCE, ORDINARY, gen_names, runtime_hostile, own_attribute_names
 
 PROP = 'C19'
@@ -20,6 +21,7 @@ SHARDS = {'quick': 4, 'thorough': 16}
 TIMEOUT = {'quick': 300, 'thorough': 3000}
 N_HIST = {'quick': 1500, 'thorough': 120000}
 N_CHILD = {'quick': 48, 'thorough': 2400}
+N_BIG = {'quick': 6, 'thorough': 200}           # scale regime: 2-3 libraries with 70-600 tags each
 RULE = ('cases: (a) seeded histories of 10-40 ops over 2-3 fresh TagLibrary objects interleaved in one process: add_tag with names from '
         'ordinary identifiers, duplicates, "NONE", the library\'s own attribute/method names, dunder names, module-global names, "", '
         'names with spaces/digit-first/unicode/10 kB, plus id probes (-1, n, n+5, 10^9) and unknown-name probes; (b) the same against '
@@ -33,7 +35,7 @@ ASSUMPTIONS = ['which hostile names are accepted is not prescribed; ordinary ide
                'names are str (the quantifier ranges over strings)']
 FLOORS = {'quick': {'adds_accepted': 5000, 'adds_rejected_duplicate': 1500, 'adds_rejected_none': 300, 'hostile_tried': 4000,
                     'hostile_rejected': 500, 'hostile_accepted': 500, 'id_probes': 10000, 'unknown_name_probes': 5000,
-                    'full_checks': 20000, 'itemize_result_mutated': 5000, 'module_histories': 24, 'module_hostile_tried': 210, 'contract:TagLibrary.bijection': 20000,
+                    'full_checks': 20000, 'itemize_result_mutated': 5000, 'big_libraries': 6, 'big_tags': 800, 'module_histories': 24, 'module_hostile_tried': 210, 'contract:TagLibrary.bijection': 20000,
                     'reach:Tags.TagLibrary.add_tag': 8000},
           'thorough': {'adds_accepted': 400000, 'module_histories': 2000}}
 EXHAUSTIVE = {}
@@ -87,8 +89,39 @@ def case_module(ctx, case):
         ctx.sample({'kind': 'module-level library, fresh interpreter', 'i': case['i'], 'ops': out['tried'][:14], 'final': out['final'][:10]})
 
 
+
+def case_big(ctx, case):
+    """Scale regime: libraries with 70-600 tags (ids far beyond 256), two or three of them alive at once, full checks at several sizes."""
+    import ECAgent.Tags as tags
+    from vlib import contracts
+    contracts.attach_taglibrary(tags)
+    rng = ctx.rng('big', case['i'])
+    libs = [LibDriver(ctx, tags, tags.TagLibrary(), 'instance', f'B{j}') for j in range(rng.randint(2, 3))]
+    sizes = [rng.choice([70, 130, 280] if ctx.tier == 'quick' else [70, 130, 300, 600]) for _ in libs]
+    step = 0
+    while any(len(l.ref) <= n for l, n in zip(libs, sizes)):
+        for l, n in zip(libs, sizes):
+            if len(l.ref) <= n:
+                l.add(f'GEN_{l.label}_{len(l.ref)}')          # fresh ordinary names: must all be accepted
+        step += 1
+        if step in (64, 65, 128, 256, 257, 599):
+            for l in libs:
+                l.full_check(rng)
+                ctx.count('big_full_checks')
+    for l in libs:
+        l.full_check(rng)
+        # ids built in different ways (not the very int objects the library stores)
+        for i in (len(l.ref) - 1, 257, 300, int('2' + '57'), 256 + 1):
+            if i < len(l.ref):
+                check(l._by_id(int(str(i))) == l.ref[i], f'{l.label}: get_tag_name({i}) differs for an equal id built elsewhere')
+        l.add(l.ref[len(l.ref) // 2])                         # duplicate deep inside a big library: rejected, nothing changes
+    ctx.count('big_libraries', len(libs))
+    ctx.count('big_tags', sum(len(l.ref) for l in libs))
+    ctx.distinct(('big', tuple(sizes), case['i']))
+
+
 def run_case(ctx, case):
-    (case_instances if case['kind'] == 'inst' else case_module)(ctx, case)
+    {'inst': case_instances, 'module': case_module, 'big': case_big}[case['kind']](ctx, case)
 
 
 def run(ctx):
@@ -99,6 +132,9 @@ def run(ctx):
     for i in range(N_HIST[ctx.tier]):
         if ctx.mine(i) and not ctx.full():
             ctx.run_case({'kind': 'inst', 'i': i}, run_case)
+    for i in range(N_BIG[ctx.tier]):
+        if ctx.mine(i) and not ctx.full():
+            ctx.run_case({'kind': 'big', 'i': i}, run_case)
     for k, v in contracts.EVALS.items():
         ctx.count('contract:' + k, v)
 
